@@ -107,7 +107,7 @@ def compile_ir(cmd, outdir, flavour='configured', extra=()):
     text = normalise_new_helpers(text, cmd['unit'])
     if renamed:
         text += ''.join(f'\n; lecverif: file-local function {g} stands for {f_} of the reference tree (same signature, same referrers)' for g, f_ in sorted(renamed.items())) + '\n'
-    text2 = fold_select_compares(text)
+    text2 = fold_select_compares(split_struct_allocas(text))
     if text2 is not text:
         p3 = subprocess.run(['opt-14', '-S', '-passes=' + passes, '-o', '-'], input=text2, text=True, capture_output=True)
         if p3.returncode != 0:
@@ -122,6 +122,148 @@ def compile_ir(cmd, outdir, flavour='configured', extra=()):
 # exits) and CFG clean-up (if-chains on one value become a switch, two-armed diamonds become selects).  Behaviour-preserving
 # rewrites of the source converge on the same shape; nothing is inlined except helpers that are new w.r.t. the reference tree.
 NORMALISE = 'function(sroa,mem2reg,instsimplify,early-cse,jump-threading,simplifycfg,instsimplify,simplifycfg)'
+
+def _split_top(sx):
+    out, depth, tok = [], 0, ''
+    for ch in sx:
+        if ch == ',' and depth == 0:
+            out.append(tok.strip()); tok = ''
+        else:
+            depth += ch in '({[<'; depth -= ch in ')}]>'
+            tok += ch
+    if tok.strip():
+        out.append(tok.strip())
+    return out
+
+def _layout(ty, structs, depth=0):
+    """(size, alignment) of an IR type under the x86-64 data layout; None when unknown"""
+    ty = ty.strip()
+    if ty.endswith('*'):
+        return 8, 8
+    m = re.match(r'i(\d+)$', ty)
+    if m:
+        b = max(1, (int(m.group(1)) + 7) // 8)
+        a = 1
+        while a < b and a < 8:
+            a *= 2
+        return b, a
+    if ty in ('float',):
+        return 4, 4
+    if ty in ('double',):
+        return 8, 8
+    m = re.match(r'\[(\d+) x (.*)\]$', ty)
+    if m:
+        e = _layout(m.group(2), structs, depth + 1)
+        return (int(m.group(1)) * e[0], e[1]) if e else None
+    if ty in structs and depth < 6:
+        off, al = 0, 1
+        for f in structs[ty]:
+            e = _layout(f, structs, depth + 1)
+            if e is None:
+                return None
+            off = (off + e[1] - 1) // e[1] * e[1] + e[0]
+            al = max(al, e[1])
+        return (off + al - 1) // al * al, al
+    return None
+
+def split_struct_allocas(text):
+    """a local struct whose members are only ever reached through their own member access (plus an all-zero initialisation)
+    is a bundle of independent locals, even when the address of one member is handed to a callee - LLVM's sroa gives up on the
+    whole aggregate as soon as any derived pointer escapes.  Such an alloca is split into one alloca per member here, so that
+    `struct scratch s = {0}; f(&s.bm); ... s.data ...` reaches the rules as the scalar locals it stands for.  The aggregate
+    is left alone when it is used as a whole anywhere (passed, copied, returned).  Returns `text` itself when nothing matched."""
+    structs = {}
+    for m in re.finditer(r'^(%struct\.[\w.]+) = type \{(.*)\}\s*$', text, re.M):
+        structs[m.group(1)] = _split_top(m.group(2))
+    lines = text.split('\n')
+    changed = False
+    start = None
+    n = 0
+    while n < len(lines):
+        ln = lines[n]
+        if ln.startswith('define '):
+            start = n
+        elif ln == '}' and start is not None:
+            body = range(start + 1, n)
+            renumber = False
+            for k in list(body):
+                am = re.match(r'(\s*)(%[\w.]+) = alloca (%struct\.[\w.]+), align (\d+)\s*$', lines[k])
+                if not am or am.group(3) not in structs:
+                    continue
+                ind, a, sty = am.group(1), am.group(2), am.group(3)
+                fields = structs[sty]
+                lay = _layout(sty, structs)
+                flay = [_layout(f, structs) for f in fields]
+                if lay is None or any(x is None for x in flay) or not fields:
+                    continue
+                tok = re.compile(r'(?<![\w.])' + re.escape(a) + r'(?![\w.])')
+                uses = [j for j in body if j != k and tok.search(lines[j])]
+                plan, ok, casts = {}, True, {}
+                for j in uses:
+                    u = lines[j]
+                    g = re.match(r'\s*(%[\w.]+) = getelementptr inbounds ' + re.escape(sty) + r', ' + re.escape(sty) + r'\* ' + re.escape(a) + r', i32 0, i32 (\d+)((?:, i\d+ [^,]+)*)(, !dbg !\d+)?\s*$', u)
+                    if g and int(g.group(2)) < len(fields):
+                        plan[j] = ('gep', g.group(1), int(g.group(2)), g.group(3) or '', g.group(4) or '')
+                        continue
+                    c = re.match(r'\s*(%[\w.]+) = bitcast ' + re.escape(sty) + r'\* ' + re.escape(a) + r' to i8\*(, !dbg !\d+)?\s*$', u)
+                    if c:
+                        casts[c.group(1)] = j
+                        plan[j] = ('drop',)
+                        continue
+                    if re.match(r'\s*call void @llvm\.dbg\.(declare|value)\(', u):
+                        plan[j] = ('drop',)
+                        continue
+                    ok = False
+                    break
+                if not ok:
+                    continue
+                for cv, cj in casts.items():
+                    ctok = re.compile(r'(?<![\w.])' + re.escape(cv) + r'(?![\w.])')
+                    for j in body:
+                        if j != cj and ctok.search(lines[j]):
+                            ms = re.match(r'(\s*)call void @llvm\.memset\.p0i8\.i64\(i8\* (?:noundef )?(?:nonnull )?(?:align \d+ )?' + re.escape(cv) + r', i8 0, i64 (\d+), i1 false\)(, !dbg !\d+)?\s*$', lines[j])
+                            if ms and int(ms.group(2)) == lay[0]:
+                                plan[j] = ('zero', ms.group(1), ms.group(3) or '')
+                            elif re.match(r'\s*call void @llvm\.lifetime\.', lines[j]):
+                                plan[j] = ('drop',)
+                            else:
+                                ok = False
+                if not ok:
+                    continue
+                # apply
+                fname = lambda i: f'%agg.{a[1:]}.m{i}'
+                renames = {}
+                for j, act in plan.items():
+                    if act[0] == 'drop':
+                        lines[j] = ''
+                    elif act[0] == 'zero':
+                        lines[j] = '\n'.join(f'{act[1]}store {f} zeroinitializer, {f}* {fname(i)}, align {flay[i][1]}{act[2]}' for i, f in enumerate(fields))
+                    elif act[0] == 'gep':
+                        _, res, idx, rest, dbg = act
+                        if rest:
+                            lines[j] = f'{ind}{res} = getelementptr inbounds {fields[idx]}, {fields[idx]}* {fname(idx)}, i32 0{rest}{dbg}'
+                        else:
+                            lines[j] = ''
+                            renames[res] = fname(idx)
+                lines[k] = '\n'.join(f'{ind}{fname(i)} = alloca {f}, align {flay[i][1]}' for i, f in enumerate(fields))
+                renumber = True
+                for res, new in renames.items():
+                    rt = re.compile(r'(?<![\w.])' + re.escape(res) + r'(?![\w.])')
+                    for j in body:
+                        if lines[j] and rt.search(lines[j]):
+                            lines[j] = rt.sub(new, lines[j])
+                changed = True
+            if renumber:
+                # removed instructions leave holes in the numbering of unnamed values: give every numbered value and block a name
+                nparams = len(re.findall(r'(?<![\w.$"!#])%\d+(?![\w.])', lines[start]))
+                lines[start] = lines[start] + f'\n{nparams}:'          # the entry block's implicit number, made explicit
+                for j in range(start, n):
+                    if lines[j]:
+                        lines[j] = re.sub(r'(?<![\w.$"!#])%(\d+)(?![\w.])', r'%v\1', lines[j])
+                        lines[j] = re.sub(r'(?m)^(\d+):', r'v\1:', lines[j])
+            start = None
+        n += 1
+    return '\n'.join(lines) if changed else text
 
 _NEGP = {'eq': 'ne', 'ne': 'eq', 'slt': 'sge', 'sge': 'slt', 'sgt': 'sle', 'sle': 'sgt', 'ult': 'uge', 'uge': 'ult', 'ugt': 'ule', 'ule': 'ugt'}
 
